@@ -60,6 +60,8 @@ def pool_header(rng, ptype=None, src=None):
     else:
         h["nodes"] = rng.choice([2, 3, 4, 5, 6, 8, 12, 20])
         h["extra"] = rng.choice([0, 0, 1, 7, 8, 15, 16, 33])
+        if rng.random() < 0.3:
+            h["down"] = 1
     return h
 
 
@@ -121,8 +123,11 @@ def coll_header(rng, ptype=None, bd=None, src=None):
     else:
         maxns = rng.choice([16, 32, 64, 100, 128])
         bs = rng.choice([1024, 1500, 2048, 4096, 5000])
-    return {"fam": "coll", "type": ptype, "bd": bd, "src": src, "ns": maxns, "bs": bs,
-            "place": rng.choice(["lo", "hi"]), "member": 1 if rng.random() < 0.25 else 0}
+    h = {"fam": "coll", "type": ptype, "bd": bd, "src": src, "ns": maxns, "bs": bs,
+         "place": rng.choice(["lo", "hi"]), "member": 1 if rng.random() < 0.25 else 0}
+    if rng.random() < 0.3:
+        h["down"] = 1
+    return h
 
 
 def coll_cmds(rng, h, n, arrays=None, tries=True, fail=False):
@@ -168,6 +173,8 @@ def stack_header(rng, src=None):
     h = {"fam": "stack", "src": src, "place": rng.choice(["lo", "hi"]),
          "member": 1 if rng.random() < 0.3 else 0}
     h["bs"] = rng.choice([512, 1024, 2048]) if src == "static" else 4096 if src == "virtual" else rng.choice([64, 100, 128, 200, 256, 500, 1024])
+    if src in ("grow", "fixed") and rng.random() < 0.35:
+        h["down"] = 1      # every new upstream block lies below the earlier ones
     return h
 
 
@@ -271,9 +278,11 @@ def iter_cmds(rng, h, n, tries=True):
 
 
 def arena_header(rng, src=None):
-    src = src or rng.choice(["grow", "grow", "static", "virtual"])
+    src = src or rng.choice(["grow", "grow", "static", "virtual", "fixed"])
     h = {"fam": "arena", "src": src, "cached": rng.choice([0, 1, 1]), "place": rng.choice(["lo", "hi"])}
     h["bs"] = rng.choice([1024, 2048, 4096]) if src == "static" else 4096 if src == "virtual" else rng.choice([64, 100, 256])
+    if src in ("grow", "fixed") and rng.random() < 0.3:
+        h["down"] = 1
     return h
 
 
